@@ -5,6 +5,7 @@ DOMAIN = "pyscript"
 CONFIG_ENTRY = "config_entry"
 CONFIG_ENTRY_OLD = "config_entry_old"
 UNSUB_LISTENERS = "unsub_listeners"
+REQUIREMENTS_LOCK = "requirements_lock"
 
 FOLDER = "pyscript"
 
